@@ -77,8 +77,11 @@ class DictStorage(QueueStorage):
         return new_attempts
 
     def set_recipients_delivered(self, id, rcpt_indexes):
-        self._remove_delivered_rcpts(self.env_db[id],
+        envelope = self.env_db[id]
+        self._remove_delivered_rcpts(envelope,
                                      sorted(rcpt_indexes, reverse=True))
+        # Assign it back, like the metadata: a shelve hands out copies.
+        self.env_db[id] = envelope
         log.update_meta(id, delivered_indexes=rcpt_indexes)
 
     def load(self):
